@@ -83,6 +83,20 @@ fn inject(target: &str, v: &Value) -> Result<R, String> {
     }))
 }
 
+/// what the conversion named by the case does (used by the random recorder)
+pub fn observe(case: &J, _rep: &mut Report) -> Result<Obs, String> {
+    let target = case["target"].as_str().unwrap_or("?").to_string();
+    let cont = case["container"].as_str().unwrap_or("").to_string();
+    let src = from_model(&case["src"])?;
+    let r = catch_unwind(AssertUnwindSafe(|| if cont == "inject" { inject(&target, &src) } else if cont.is_empty() { scalar(&target, src.clone()) } else { container(&cont, &target, src.clone()) })).map_err(panic_msg);
+    Ok(match r {
+        Err(p) => Obs::Panic(p),
+        Ok(Err(e)) => return Err(e),
+        Ok(Ok(Ok(v))) => Obs::Ok(v),
+        Ok(Ok(Err(e))) => classify(&e),
+    })
+}
+
 pub fn replay_conv(case: &J, rep: &mut Report) {
     let target = case["target"].as_str().unwrap_or("?").to_string();
     let cont = case["container"].as_str().unwrap_or("").to_string();
